@@ -93,6 +93,21 @@ def build(style, kinds):
                 pre += [c != 10, c != 13]
             lit.append(c)
             exp.append(c)
+        elif k == "bs":
+            # a backslash in a raw literal is an ordinary character (also as the last one before the closing quote)
+            lit.append(z3.IntVal(92))
+            exp.append(z3.IntVal(92))
+        elif k in ("us", "Us"):
+            # an escape spelling a surrogate code point: an evaluation error or exactly that code point (never a merged pair)
+            n = 4 if k == "us" else 8
+            ds = [var(f"h{i}_{j}") for j in range(n)]
+            pre += [ishex(d) for d in ds]
+            val = z3.IntVal(0)
+            for d in ds:
+                val = val * 16 + hexval(d)
+            pre += [val >= 0xD800, val <= 0xDFFF]
+            lit += [z3.IntVal(92), z3.IntVal(ord(k[0]))] + ds
+            exp.append(val)
         elif k == "nl":
             lit.append(z3.IntVal(10))
             exp.append(z3.IntVal(10))
@@ -135,6 +150,12 @@ def shapes(tier):
         top = mx + 1 if (style == "dq" and tier == "thorough") else mx
         for n in range(0, top + 1):
             for kinds in itertools.product(pool, repeat=n):
+                out.append((style, kinds))
+        if raw:
+            for kinds in (("bs",), ("plain", "bs"), ("bs", "plain"), ("bs", "bs"), ("plain", "bs", "plain"), ("bs", "plain", "bs")):
+                out.append((style, kinds))
+        if not raw and not is_bytes:
+            for kinds in (("us",), ("us", "us"), ("us", "plain"), ("plain", "us"), ("Us", "Us"), ("us", "Us"), ("us", "plain", "us")):
                 out.append((style, kinds))
         if multi:
             for kinds in (("nl",), ("plain", "nl"), ("nl", "plain"), ("quote", "plain"), ("plain", "quote", "plain"), ("nl", "nl")):
@@ -237,7 +258,8 @@ def _str_harness(style, kinds):
             m = sp.match(longer, 0)
             if m is not None:
                 ob2 = Ob(f"C07/lexer/{kindname}-ends-at-closing-quote", z3.BoolVal(m.end() == len(text) and m.lastgroup == ttype),
-                         note=f"in `<literal>{tail}` the first token must be the first literal: matched {m.end()} of {len(text)} chars as {m.lastgroup}")
+                         note=f"in `<literal>{tail}` the first token must be the first literal: matched {m.end()} of {len(text)} chars as {m.lastgroup}",
+                         tags={"raw_trailing_backslash": bool(raw and kinds and kinds[-1] == "bs")})
                 break
         obs.append(ob2 or Ob(f"C07/lexer/{kindname}-ends-at-closing-quote", z3.BoolVal(False), note="scanner does not match"))
         tok = lark.Token(ttype, text)
@@ -248,6 +270,8 @@ def _str_harness(style, kinds):
             return obs + [Ob(f"C07/{'bytes' if is_bytes else 'string'}/no-escape", z3.BoolVal(False), note=f"{type(ex).__name__}: {ex}"[:200],
                              tags={"exc": type(ex).__name__})]
         if isinstance(r, celpy.CELEvalError):
+            if any(k in ("us", "Us") for k in kinds):
+                return obs + [Ob("C07/string/surrogate-escape", z3.BoolVal(True), note="evaluation error for an escape that spells a surrogate code point")]
             return obs + [Ob(f"C07/{'bytes' if is_bytes else 'string'}/valid-literal-decodes", z3.BoolVal(False), note=f"error for a valid literal: {r.args[:1]}")]
         if is_bytes:
             got = bterms(r)
@@ -275,7 +299,8 @@ def _str_harness(style, kinds):
 
     def witness(vals):
         return {"check": "c07.string_literal", "args": {"text": [ord(c) for c in conc(vals)], "bytes": is_bytes,
-                                                        "expected": _expected_concrete(style, kinds, vals), "tail": tail}}
+                                                        "expected": _expected_concrete(style, kinds, vals), "tail": tail,
+                                                        "may_error": any(k in ("us", "Us") for k in kinds)}}
 
     return Harness(id=f"C07/{tag}", vars=vs or {"dummy": z3.Int("dummy")}, pre=pre, run=run, witness=witness, max_paths=300)
 
@@ -288,6 +313,10 @@ def _expected_concrete(style, kinds, vals):
         if k == "plain":
             cp = vals[f"c{i}"]
             out += list(chr(cp).encode("utf-8")) if is_bytes else [cp]
+        elif k == "bs":
+            out += [92]
+        elif k in ("us", "Us"):
+            out.append(int("".join(chr(vals[f"h{i}_{j}"]) for j in range(4 if k == "us" else 8)), 16))
         elif k == "nl":
             out.append(10)
         elif k == "quote":
